@@ -30,6 +30,7 @@ type Engine struct {
 	Missing map[string][]string
 	requireTermination bool
 	varScopes map[*ssa.Alloc]*types.Scope
+	instances map[string]*ssa.Function // instances of generic functions by key
 	callGraphSCC map[string]int
 	KnownFindings map[string][]KFExcept
 	Renames map[string]map[string]string // function key -> recorded local name -> current local name
@@ -183,6 +184,12 @@ func (eng *Engine) FindFunc(key string) *ssa.Function {
 		}
 		if f := sp.Func(rest); f != nil {
 			return f
+		}
+		if gname, _, ok := strings.Cut(rest, "["); ok {
+			// an instance of a generic function, created because the program references it
+			if g := sp.Func(gname); g != nil {
+				return eng.findInstance(g, rest)
+			}
 		}
 	}
 	return nil
